@@ -104,7 +104,7 @@ def gen_case(rng, maxlen):
 
 
 def generate(rng, tier):
-    n, maxlen = (300, 25) if tier == "quick" else (12000, 60)
+    n, maxlen = (1500, 25) if tier == "quick" else (20000, 60)
     for _ in range(n):
         yield gen_case(rng, maxlen)
 
